@@ -627,3 +627,113 @@ pub fn selftest(depth: usize) -> String {
         t0.elapsed().as_secs_f64()
     )
 }
+
+/// Long scripted histories (thresholds such as "half full", 128 sketch words or the
+/// eviction batch are far beyond any exhaustive depth): every step goes through the
+/// same oracles as the search. Patterns: `fill` (look a key up, insert it, re-read an
+/// older one; capacity >= n) and `churn` (the same over a capacity much smaller than n).
+pub fn longrun_ops(cfg: &Cfg, pattern: &str, n: usize) -> Vec<Op> {
+    let mut ops = Vec::new();
+    let s = cfg.kind == Kind::S && !cfg.autosync;
+    for i in 0..n {
+        let k = i as u8;
+        let w = if cfg.weigher { 1 + (i % 3) as u8 } else { 1 };
+        ops.push(Op::Get(k));
+        ops.push(Op::Ins(k, if pattern == "fill" { 1 } else { w }));
+        if i >= 3 && i % 2 == 0 {
+            ops.push(Op::Get(k - 2));
+        }
+        if i % 7 == 6 {
+            ops.push(Op::Ins(k - 3, if cfg.weigher { 2 } else { 1 }));
+        }
+        if i % 11 == 10 {
+            ops.push(Op::Inv(k - 5));
+        }
+        if s && i % 4 == 3 {
+            ops.push(Op::Sync);
+        }
+    }
+    if s {
+        ops.push(Op::Sync);
+    }
+    ops
+}
+
+pub fn longrun(spec: &str, pattern: &str, n: usize) -> String {
+    let t0 = Instant::now();
+    let mut cfg = Cfg::parse(spec);
+    cfg.nkeys = n as u8;
+    let hasher = make_hasher(cfg.hash);
+    let ops = longrun_ops(&cfg, pattern, n);
+    tracker().reset();
+    let mut sut = Sut::new(&cfg, hasher);
+    let mut model = Model::new(&cfg);
+    let mut viols: Vec<Violation> = Vec::new();
+    let mut sigs: HashSet<(String, String)> = HashSet::new();
+    let w = format!("longrun|{}|{pattern}|{n}", cfg.spec());
+    let mut steps = 0u64;
+    for op in &ops {
+        let pre = sut.snapshot();
+        let out = step(&cfg, &mut sut, &mut model, &pre, *op, &hasher);
+        steps += 1;
+        for mut v in out.viol {
+            if sigs.insert((v.prop.to_string(), v.sig.clone())) {
+                v.detail = format!("step {steps} ({}): {}", op.text(), v.detail);
+                v.witness = w.clone();
+                viols.push(v);
+            }
+        }
+        if out.dead {
+            std::mem::forget(sut);
+            return longrun_json(&cfg, pattern, steps, &viols, &w, t0);
+        }
+    }
+    drop(sut);
+    let (lk, lv) = tracker().live();
+    if lk != 0 || lv != 0 {
+        viols.push(Violation { prop: "C11", sig: "longrun:leak-after-drop".into(), detail: format!("{lk} keys and {lv} values alive after drop"), witness: w.clone() });
+    }
+    longrun_json(&cfg, pattern, steps, &viols, &w, t0)
+}
+
+fn longrun_json(cfg: &Cfg, pattern: &str, steps: u64, viols: &[Violation], w: &str, t0: Instant) -> String {
+    format!(
+        "{{\"engine\":\"longrun\",\"spec\":{},\"states\":{steps},\"transitions\":{steps},\"depth_done\":{steps},\"capped\":false,\"outcomes\":1,\"viol_total\":{},\"violations\":{},\"samples\":[{}],\"wall_s\":{:.3}}}",
+        jstr(&format!("{pattern}: {}", cfg.spec())),
+        viols.len(),
+        jlist(&viols.iter().map(|v| v.to_json()).collect::<Vec<_>>()),
+        jstr(w),
+        t0.elapsed().as_secs_f64()
+    )
+}
+
+pub fn longrun_replay(w: &str) -> Vec<Violation> {
+    let parts: Vec<&str> = w.split('|').collect();
+    let out = longrun(parts[1], parts[2], parts[3].parse().unwrap());
+    println!("{out}");
+    // re-run and print the violated clauses in the replay format
+    let mut cfg = Cfg::parse(parts[1]);
+    cfg.nkeys = parts[3].parse::<usize>().unwrap() as u8;
+    let hasher = make_hasher(cfg.hash);
+    let ops = longrun_ops(&cfg, parts[2], parts[3].parse().unwrap());
+    tracker().reset();
+    let mut sut = Sut::new(&cfg, hasher);
+    let mut model = Model::new(&cfg);
+    let mut all = Vec::new();
+    let mut seen: HashSet<(String, String)> = HashSet::new();
+    for (i, op) in ops.iter().enumerate() {
+        let pre = sut.snapshot();
+        let o = step(&cfg, &mut sut, &mut model, &pre, *op, &hasher);
+        for v in o.viol {
+            if seen.insert((v.prop.to_string(), v.sig.clone())) {
+                println!("      VIOLATED {} [{}]: step {} ({}): {}", v.prop, v.sig, i + 1, op.text(), v.detail);
+                all.push(v);
+            }
+        }
+        if o.dead {
+            std::mem::forget(sut);
+            return all;
+        }
+    }
+    all
+}
